@@ -158,10 +158,12 @@ example : Resolves (pCS ℝ).A (pCS ℝ).S := pCS_resolves
     `[[4,2],[2,10]]` + variance 4, `A = [[4,4],[5,5],[4,4]]` (defect 1), `S = {1}` — with `alg = alg' = gso`
     meets the static hypotheses, `AdjM.SolverHyp .gso` and `Resolves A S`, and `Adj` answers.
     INSTANTIATED: every hypothesis, including `Resolves`, together with a model answer, over ℝ.
-    NOT instantiated over ℝ: two DIFFERENT algorithms on one problem (the cholesky / envelope / svd models are
-    not evaluated over ℝ on a correlated problem — `decide` is unavailable there and the `simp` evaluation of
-    `Lemmas/Ls/ComposeAdjExample.lean` was done for Gram–Schmidt only); for two different algorithms see the
-    joint ℚ instance below. -/
+    Two DIFFERENT algorithms over ℝ: at `LocalNetwork` level `C02_same_net` is applied to any two of envelope,
+    cholesky, gso on the evaluated `Ex.npR : NetProblem ℝ` (`Props/C02NetWitness.lean`, `C02_same_net_witness`; gso
+    versus svd on `Ex.npV`: `Props/C02NetWitnessSvd.lean`; one-hypothesis forms: `Props/C02InputGap.lean`).  At
+    class `Adj` over ℝ only `alg = alg' = gso` is evaluated (the `simp` evaluation of
+    `Lemmas/Ls/ComposeAdjExample.lean` was done for Gram–Schmidt only); for two different algorithms through `Adj`
+    see the joint ℚ instance below. -/
 example : (dimsOf (pCS ℝ)).sum = (pCS ℝ).m ∧ RowsOK (pCS ℝ) ∧ (pCS ℝ).C * PCS ℝ = 1
     ∧ AdjM.SolverHyp .gso (pCS ℝ) ∧ Resolves (pCS ℝ).A (pCS ℝ).S
     ∧ ∃ a, adjSolve .gso (pCS ℝ) = .ok a ∧ a.x = #[0, 1/2] ∧ a.defect = 1 :=
